@@ -487,27 +487,32 @@ def updateRecursively (d : Val) (other : UpdOther) (value : Option Val) : Except
 
 /-! ## `format_update_with` (functions.py:215-239) -/
 
+/-- lines 230-236: a string value with a brace is formatted with `d`, any other value is taken as it is -/
+def formatValue (value : Val) (d : Val) : Except Exc Val :=
+  match value with
+  | .leaf (.str s) =>
+    if s.toList.contains '{' then
+      match formatInit (some s) with
+      | .error e => .error e
+      | .ok fc =>
+        match formatCall fc d with
+        | .ok r => .ok (.leaf (.str r))
+        | .error e => .error e
+    else .ok value
+  | _ => .ok value
+
+/-- lines 237-239: `update_recursively(d, str_to_dict(key, value_formatted))` -/
+def assignFormatted (key : String) (vf : Val) (d : Val) : Except Exc Val :=
+  match strToDict key (some vf) with
+  | .error e => .error e
+  | .ok fctx => updateRecursively d (.val fctx) none
+
 /-- `format_update_with(key, value, d)`: returns the new state of `d` (on an exception `d` is
 unchanged: the update is the last statement) -/
 def formatUpdateWith (key : String) (value : Val) (d : Val) : Except Exc Val :=
-  let formatted : Except Exc Val :=
-    match value with
-    | .leaf (.str s) =>
-      if s.toList.contains '{' then
-        match formatInit (some s) with
-        | .error e => .error e
-        | .ok fc =>
-          match formatCall fc d with
-          | .ok r => .ok (.leaf (.str r))
-          | .error e => .error e
-      else .ok value
-    | _ => .ok value
-  match formatted with
+  match formatValue value d with
   | .error e => .error e
-  | .ok vf =>
-    match strToDict key (some vf) with
-    | .error e => .error e
-    | .ok fctx => updateRecursively d (.val fctx) none
+  | .ok vf => assignFormatted key vf d
 
 /-! ## Flow values (`lena/flow/functions.py:31-56`) -/
 
